@@ -73,11 +73,11 @@ theorem done_local {s : Sys S} (hi : SysInv Phi opt Sol s) (hd : DoneInv s) {i :
     DoneInv { crit := c', ws := s.ws.set i w' } :=
   done_of_holder Phi opt Sol hi hd hw hh c' _ hab (fun j h => set_done h1 h) (fun j n h => set_fin h2 h)
 
-theorem enqueue_abort (dedup : Bool) (st : SeqSt S) (ub : Int) (cs : List (SubP S)) :
-    (st.enqueue dedup ub cs).abort = st.abort := by
+theorem enqueue_abort (dedup : Bool) (st : SeqSt S) (cs : List (SubP S)) :
+    (st.enqueue dedup cs).abort = st.abort := by
   cases dedup
-  · exact (enqueue_false_spec st ub cs).2.2.2.1
-  · exact (enqueue_true_spec st ub cs).2.2.2.1
+  · exact (enqueue_false_spec st cs).2.2.2.1
+  · exact (enqueue_true_spec st cs).2.2.2.1
 
 theorem step_done (dedup : Bool) {okR okX : SubP S → Int → DDOut S → Prop}
     {s t : Sys S} (h : Step dedup okR okX s t) (hi : SysInv Phi opt Sol s) (hd : DoneInv s) : DoneInv t := by
@@ -142,7 +142,7 @@ theorem step_done (dedup : Bool) {okR okX : SubP S → Int → DDOut S → Prop}
     · split <;> simp
     · intro m; split <;> simp
   | enqueue i n lb o hw =>
-    exact done_local Phi opt Sol hi hd hw rfl _ _ (enqueue_abort dedup _ _ _) (by simp) (fun m => by simp)
+    exact done_local Phi opt Sol hi hd hw rfl _ _ (enqueue_abort dedup _ _) (by simp) (fun m => by simp)
   | abort i n top hw htop =>
     refine ⟨fun _ h => ?_, fun _ _ _ => rfl⟩
     have h : (s.crit.abortSearch n.ub top).base.abort = false := h
@@ -205,11 +205,11 @@ theorem final_optimal {s : Sys S} (hi : SysInv Phi opt Sol s) (hd : DoneInv s) {
 /-- `best_sol` and `best_lb` are written together: without a stored solution the lower bound is the sentinel -/
 def NoSol (s : Sys S) : Prop := s.crit.base.bestSol = none → s.crit.base.bestLb = iMin
 
-theorem enqueue_lb_sol (dedup : Bool) (st : SeqSt S) (ub : Int) (cs : List (SubP S)) :
-    (st.enqueue dedup ub cs).bestLb = st.bestLb ∧ (st.enqueue dedup ub cs).bestSol = st.bestSol := by
+theorem enqueue_lb_sol (dedup : Bool) (st : SeqSt S) (cs : List (SubP S)) :
+    (st.enqueue dedup cs).bestLb = st.bestLb ∧ (st.enqueue dedup cs).bestSol = st.bestSol := by
   cases dedup
-  · exact ⟨(enqueue_false_spec st ub cs).1, (enqueue_false_spec st ub cs).2.1⟩
-  · exact ⟨(enqueue_true_spec st ub cs).1, (enqueue_true_spec st ub cs).2.1⟩
+  · exact ⟨(enqueue_false_spec st cs).1, (enqueue_false_spec st cs).2.1⟩
+  · exact ⟨(enqueue_true_spec st cs).1, (enqueue_true_spec st cs).2.1⟩
 
 theorem update_noSol {b : SeqSt S} {n : SubP S} {lb : Int} {o : DDOut S} (hc : CompileOk Phi opt Sol n lb o)
     (h : b.bestSol = none → b.bestLb = iMin) :
@@ -258,10 +258,10 @@ theorem step_noSol (dedup : Bool) {okR okX : SubP S → Int → DDOut S → Prop
     have hc : CompileOk Phi opt Sol n lb o := ((hi.loc i _ hw).stage : _ ∧ _ ∧ _).2.1
     exact update_noSol Phi opt Sol hc hn
   | enqueue i n lb o hw =>
-    obtain ⟨e1, e2⟩ := enqueue_lb_sol dedup s.crit.base n.ub o.cutset
+    obtain ⟨e1, e2⟩ := enqueue_lb_sol dedup s.crit.base o.cutset
     intro h
-    have h : (s.crit.base.enqueue dedup n.ub o.cutset).bestSol = none := h
-    show (s.crit.base.enqueue dedup n.ub o.cutset).bestLb = iMin
+    have h : (s.crit.base.enqueue dedup o.cutset).bestSol = none := h
+    show (s.crit.base.enqueue dedup o.cutset).bestLb = iMin
     rw [e1]; rw [e2] at h; exact hn h
   | abort i n top hw htop => exact hn
   | notify i n te c' hw hn' =>
